@@ -6,6 +6,10 @@ Reads (AST only, nothing is imported from the tree):
     formats and the offsets returned per address type (the snapshot codec of Network.snapshot/load_snapshot);
   * ipv8/peer.py: Peer.INTERFACE_ORDER (which address Peer.address prefers);
   * ipv8/peerdiscovery/network.py: the three reverse_*_cache_size defaults and the address snapshot() skips.
+Tolerated rewrites: renamed locals in Address.unpack (the type variable is whatever `unpack_from(">B", …)` is assigned
+to, the offset is the method's third parameter, the length whatever the first `unpack_from` of the host-name branch is
+assigned to), `CONST == var` as well as `var == CONST`, if/elif chains, `struct.pack`/`struct.unpack_from` as attribute
+calls, INTERFACE_ORDER as list or tuple, annotated assignments of the cache sizes.
 Subset: integer constants, struct format strings made of B/H/<n>s with one `{len(...)}` hole, `offset + <int> [+ length]`
 returns.  Anything else raises TranslatorError.
 """
@@ -64,7 +68,30 @@ def _widths(fmt: str):
     return out
 
 
-def _ret_offset(fn_branch):
+def _callname(c):
+    """name of the called function for `f(...)` and `mod.f(...)`"""
+    if isinstance(c, ast.Call):
+        if isinstance(c.func, ast.Name):
+            return c.func.id
+        if isinstance(c.func, ast.Attribute):
+            return c.func.attr
+    return None
+
+
+def _assigned_name(stmt):
+    """`x, = call(...)` / `x = call(...)[0]` / `x = call(...)` -> ('x', call)"""
+    if isinstance(stmt, ast.Assign) and len(stmt.targets) == 1:
+        tgt, val = stmt.targets[0], stmt.value
+        if isinstance(tgt, ast.Tuple) and len(tgt.elts) == 1:
+            tgt = tgt.elts[0]
+        if isinstance(val, ast.Subscript):
+            val = val.value
+        if isinstance(tgt, ast.Name) and isinstance(val, ast.Call):
+            return tgt.id, val
+    return None, None
+
+
+def _ret_offset(fn_branch, offset_name="offset", length_name="length"):
     """`return offset + N` or `return offset + N + length` -> (N, uses_length)"""
     for n in ast.walk(fn_branch):
         if isinstance(n, ast.Return) and n.value is not None:
@@ -80,9 +107,9 @@ def _ret_offset(fn_branch):
                     const += e.value
                 else:
                     raise TranslatorError("unsupported return expression in Address.unpack")
-            if "offset" not in names:
+            if offset_name not in names:
                 raise TranslatorError("Address.unpack branch does not return offset + ...")
-            return const, ("length" in names)
+            return const, (length_name in names)
     raise TranslatorError("Address.unpack branch without return")
 
 
@@ -102,7 +129,7 @@ def translate() -> str:
     # --- pack: calls pack(fmt, TYPE, ...) ---
     packs = {}
     for n in ast.walk(_fn(addr, "pack")):
-        if isinstance(n, ast.Call) and isinstance(n.func, ast.Name) and n.func.id == "pack" and len(n.args) >= 2:
+        if _callname(n) == "pack" and len(n.args) >= 2:
             if not isinstance(n.args[1], ast.Name) or n.args[1].id not in consts:
                 raise TranslatorError("Address.pack: second argument of pack() is not an ADDRESS_TYPE_* name")
             packs[n.args[1].id] = _widths(_fmt(n.args[0]))
@@ -110,24 +137,43 @@ def translate() -> str:
         raise TranslatorError(f"Address.pack covers {sorted(packs)}, expected {sorted(consts)}")
     # --- unpack: `if address_type == TYPE` branches ---
     unpacks = {}
-    for n in ast.walk(_fn(addr, "unpack")):
+    unpack_fn = _fn(addr, "unpack")
+    if len(unpack_fn.args.args) < 3:
+        raise TranslatorError("Address.unpack has fewer than three parameters")
+    offset_name = unpack_fn.args.args[2].arg
+    type_var = None
+    for n in ast.walk(unpack_fn):
+        nm, call = _assigned_name(n)
+        if nm and _callname(call) == "unpack_from" and call.args and _fmt(call.args[0]) == ">B":
+            type_var = nm
+            break
+    if type_var is None:
+        raise TranslatorError("Address.unpack: no variable is assigned from unpack_from('>B', ...)")
+    for n in ast.walk(unpack_fn):
         if isinstance(n, ast.If):
             tname = None
             for c in ast.walk(n.test):
-                if isinstance(c, ast.Compare) and isinstance(c.left, ast.Name) and c.left.id == "address_type" \
-                        and len(c.ops) == 1 and isinstance(c.ops[0], ast.Eq) and isinstance(c.comparators[0], ast.Name):
-                    tname = c.comparators[0].id
+                if isinstance(c, ast.Compare) and len(c.ops) == 1 and isinstance(c.ops[0], ast.Eq):
+                    l, r = c.left, c.comparators[0]
+                    if isinstance(l, ast.Name) and isinstance(r, ast.Name):
+                        if l.id == type_var:
+                            tname = r.id
+                        elif r.id == type_var:
+                            tname = l.id
             if tname is None:
                 continue
             if tname not in consts:
                 raise TranslatorError(f"Address.unpack compares with unknown {tname}")
-            fmts = []
+            fmts, length_name = [], "length"
             for b in n.body:
                 for c in ast.walk(b):
-                    if isinstance(c, ast.Call) and isinstance(c.func, ast.Name) and c.func.id == "unpack_from":
+                    if _callname(c) == "unpack_from":
                         fmts.append(_widths(_fmt(c.args[0])))
+                nm, call = _assigned_name(b)
+                if nm and _callname(call) == "unpack_from" and length_name == "length" and len(fmts) == 1:
+                    length_name = nm
             body = ast.Module(body=n.body, type_ignores=[])
-            unpacks[tname] = (fmts, _ret_offset(body))
+            unpacks[tname] = (fmts, _ret_offset(body, offset_name, length_name))
     if set(unpacks) != set(consts):
         raise TranslatorError(f"Address.unpack covers {sorted(unpacks)}, expected {sorted(consts)}")
 
@@ -153,8 +199,10 @@ def translate() -> str:
     peer = ast.parse((REPO / "ipv8/peer.py").read_text())
     order = None
     for n in _cls(peer, "Peer").body:
+        if isinstance(n, ast.AnnAssign) and n.value is not None:
+            n = ast.Assign(targets=[n.target], value=n.value)
         if isinstance(n, ast.Assign) and isinstance(n.targets[0], ast.Name) and n.targets[0].id == "INTERFACE_ORDER":
-            if not isinstance(n.value, ast.List) or not all(isinstance(e, ast.Name) and e.id in SLOT for e in n.value.elts):
+            if not isinstance(n.value, (ast.List, ast.Tuple)) or not all(isinstance(e, ast.Name) and e.id in SLOT for e in n.value.elts):
                 raise TranslatorError("Peer.INTERFACE_ORDER is not a list of known address classes")
             order = [SLOT[e.id] for e in n.value.elts]
     if order is None:
@@ -164,6 +212,8 @@ def translate() -> str:
     net = ast.parse((REPO / "ipv8/peerdiscovery/network.py").read_text())
     caps = {}
     for n in ast.walk(_fn(_cls(net, "Network"), "__init__")):
+        if isinstance(n, ast.AnnAssign) and n.value is not None:
+            n = ast.Assign(targets=[n.target], value=n.value)
         if isinstance(n, ast.Assign) and isinstance(n.targets[0], ast.Attribute) and n.targets[0].attr.endswith("_cache_size"):
             if not (isinstance(n.value, ast.Constant) and isinstance(n.value.value, int)):
                 raise TranslatorError(f"{n.targets[0].attr} default is not an integer literal")
